@@ -247,7 +247,15 @@ def run(tier, seed):
             t = rng.choice(small if rng.random() < 0.7 else terms)
             which = rng.choice(["lib", "twin", "twin"]) if j else rng.choice(["lib", "lib", "twin"])
             decls.append((t, which))
-        texts = ["(import %s)" % to_text(t, TWIN if w == "twin" else rng.choice([LIBN, LIBS])) for t, w in decls]
+        lib_for = rng.choice([LIBN, LIBS])
+        if rng.random() < 0.2:
+            # the WHOLE library by its bare name, then another declaration that binds some of its names to other values, then the whole library once more (the
+            # same library, a successful import each time): its names have its values again
+            mid = rng.choice([t for t in small if t[0] in ("rename", "prefix", "only")] or small)
+            decls = [(("lib",), "lib"), (mid, rng.choice(["twin", "lib"])), (("lib",), "lib")]
+            texts = ["(import %s)" % to_text(t, TWIN if w == "twin" else lib_for) for t, w in decls]
+        else:
+            texts = ["(import %s)" % to_text(t, TWIN if w == "twin" else rng.choice([LIBN, LIBS])) for t, w in decls]
         # a declaration may carry a further import set that fails (a library that does not exist): the declaration as a whole fails and binds nothing
         failing = [False] * len(decls)
         for j in range(len(decls)):
